@@ -85,6 +85,9 @@ def gen_upstream(ch, cap):
             info["name"] = "text/" + label
         elif kind == 1:     # binary
             body = ch.bytes_("bin", ch.biased_size("blen", 0, min(cap, 50000), [0, 1, 16384]))
+            if ch.chance("atcap", 0.15):
+                # exactly at / just below the client's cap: still a complete valid response
+                body = b"k" * (cap - ch.pick("belowcap", [0, 1, 16, 29, 64]))
             head = ch.pick("binhead", [b"20 application/octet-stream\r\n", b"20 \r\n",
                                        b"20 image/png\r\n", b"20 ;x=y\r\n"], [5, 2, 2, 1])
             info["name"] = "binary"
@@ -92,7 +95,8 @@ def gen_upstream(ch, cap):
             st = ch.pick("st", [10, 11, 30, 31, 40, 41, 42, 43, 44, 50, 51, 52, 53, 59, 60, 61, 62,
                                 19, 39, 49, 69, 25])
             meta = ch.pick("meta", ["prompt?", "gemini://elsewhere.sim/x", "an error", "ünï ✓", "",
-                                    "m" * 1000])
+                                    "m" * 1000, "vt\x0bff\x0cfs\x1cgs\x1drs\x1e end", "nel\u0085ls\u2028ps\u2029",
+                                    "trailing separator\u2028", "tab\there  two spaces "])
             head = f"{st} {meta}\r\n".encode()
             body = b"text for 2x\n" if 20 <= st <= 29 else b""
             info["name"] = f"status-{st // 10}x"
